@@ -6,10 +6,32 @@ package metric
 // reach of contracts is the searcher's resume logic. Writing, rolling, reading and truncation are checked by the
 // bounded stand-in c17_metric_log on the real code.
 
-// whether the cached index position is still valid for a query: reads the index file (assumed, no effect on the cache)
-//@ func (s *DefaultMetricSearcher) isPositionInTimeFor(beginTimeMs) (ok, err)
+// file I/O around the cache check: assumed (no panic; binary.Read may put anything into its target)
+//@ extern os.Stat(name) (fi, err)
+//@   panics never
+//@   modifies nothing
+//@ func openFileAndSeekTo(filename, offset) (f, err)
 //@   assumed
 //@   panics never
+//@   ensures err == nil ==> f != nil
+//@   modifies nothing
+// (binary.Read stores the decoded value through the pointer it is given — in this package always the address of a
+// local 8-byte integer — and writes nothing else)
+//@ extern encoding/binary.Read(r, order, data) err
+//@   panics never
+//@   modifies cell(dynptr(data))
+//@ extern (*os.File).Close(f) err
+//@   panics never
+//@   modifies nothing
+
+// whether the cached index position may be used for a query: never for a query that begins before the cached second
+// (the index scan only moves forward from the cached offset), never when nothing is cached; the cache is not written
+//@ func (s *DefaultMetricSearcher) isPositionInTimeFor(beginTimeMs) (ok, err)
+//@   props C17
+//@   requires s != nil && s.cachedPos != nil
+//@   panics never
+//@   ensures[never-for-an-earlier-begin] ok ==> beginTimeMs / 1000 >= old(s.cachedPos.curSecInIdx)
+//@   ensures[never-without-a-cached-file] ok ==> old(s.cachedPos.idxFilename) != ""
 //@   modifies nothing
 
 // A search resumes either from the very beginning (file 0, index offset 0) or at the cached position — and the cached
